@@ -52,3 +52,6 @@ Proof. vm_compute. repeat split. Qed.
 
 Example C03_premise_met : safe 3 init ex_labels.
 Proof. exact ex_safe. Qed.
+
+(* schedules: cases of h_reader -mode c03s are evaluated with C03.SCheck over the pipeline with scheduling points (Reader/Conc.v) *)
+Require Verif.C03.SCheck.
